@@ -275,6 +275,13 @@ func main() {
 				runTarget(r, ch)
 			case "ke.own":
 				runOwn(r)
+			case "ke.overlap":
+				vs := parseVals(c[2])
+				var scs []script
+				for _, o := range parseOps(c[2]) {
+					scs = append(scs, o.sc)
+				}
+				runOverlap(r, scs, int(vs[1].z), int(vs[2].z), c[1])
 			case "ke.ownq":
 				runOwnQ(r)
 			case "ke.starget":
